@@ -131,6 +131,9 @@ func init() {
 		}
 	}
 	jeStrPool = append(jeStrPool, strings.Repeat("q", 64)+"\t", strings.Repeat("r", 127)+"\r", strings.Repeat("s", 4095)+`"`)
+	// the very first non-ASCII byte value on its own (boundary of "is this byte plain ASCII"), in otherwise plain text
+	jeStrPool = append(jeStrPool, "\x80", "lone\x80byte", "price 5\x80", "\x81\xbf", strings.Repeat("z", 70)+"\x80")
+	jeKeyPool = append(jeKeyPool, "k\x80", "\x80")
 }
 
 var jeStrPool = []string{"", "plain", `quo"te`, `back\slash`, "line\nbreak", "cr\rlf\n", "tab\t", "\x00\x01\x1f", "\x7f", "\u2028\u2029", "bad\xff\xfe", "trunc\xe2\x82", "\xc0\xaf", "\xed\xa0\x80", "emoji😀", "<a&b>", "{\"json\":1}", strings.Repeat("x", 10000), strings.Repeat("é", 700) + "\n", "ends with backslash\\", "  "}
@@ -1129,4 +1132,177 @@ func compareWithMapEncoder(body []byte, w *jeWorld, segs [][]zap.Field, call []z
 		return ""
 	}
 	return walk("$", map[string]interface{}(m.Fields), dec, true)
+}
+
+
+// ---- overlapping / history scenarios on one encoder (shared by C01, C02, C08, C10) ----
+
+type jeGateJSON struct {
+	who  string
+	gate func()
+}
+
+func (g jeGateJSON) MarshalJSON() ([]byte, error) {
+	if g.gate != nil {
+		g.gate()
+	}
+	return []byte(`{"who":"` + g.who + `"}`), nil
+}
+
+// replayReflectOverlap: a logger whose With-context holds a reflected value; one goroutine is parked inside
+// the reflection-based encoding of its call-site field while another entry with a reflected field is logged
+// (and a sibling logger is derived) through the same logger. Every line must be exactly its own.
+func replayReflectOverlap() (finds []jeFinding) {
+	add := func(key, f string, a ...interface{}) {
+		finds = append(finds, jeFinding{"", key, fmt.Sprintf(f, a...)})
+	}
+	sink := &lockedLines{}
+	core := zapcore.NewCore(zapcore.NewJSONEncoder(zapcore.EncoderConfig{MessageKey: "m", SkipLineEnding: true}), sink, zapcore.DebugLevel)
+	lg := zap.New(core).With(zap.Reflect("ctx", struct{ Build string }{"v1"}))
+	parked := make(chan struct{})
+	release := make(chan struct{})
+	done := make(chan interface{}, 1)
+	go func() {
+		defer func() { done <- recover() }()
+		lg.Info("A", zap.Reflect("payload", jeGateJSON{"A", func() { close(parked); <-release }}), zap.Int("after", 1))
+	}()
+	select {
+	case <-parked:
+	case <-time.After(5 * time.Second):
+		add("harness", "the reflected field's MarshalJSON was never called")
+		return finds
+	}
+	func() {
+		defer func() {
+			if p := recover(); p != nil {
+				add("panic", "logging a reflected field while another reflected field is being encoded panicked: %v", p)
+			}
+		}()
+		lg.Info("B", zap.Reflect("payload", jeGateJSON{"B", nil}), zap.Int("after", 2))
+		lg.With(zap.Reflect("req", jeGateJSON{"C", nil})).Info("C")
+	}()
+	close(release)
+	if p := <-done; p != nil {
+		add("panic", "the parked logging call panicked: %v", p)
+	}
+	want := map[string]string{
+		"A": `{"m":"A","ctx":{"Build":"v1"},"payload":{"who":"A"},"after":1}`,
+		"B": `{"m":"B","ctx":{"Build":"v1"},"payload":{"who":"B"},"after":2}`,
+		"C": `{"m":"C","ctx":{"Build":"v1"},"req":{"who":"C"}}`,
+	}
+	// the same while DERIVING: one With(reflected) is parked inside the encoding of its field, a sibling is derived
+	// from the same parent (whose encoder already holds a reflected context field) and used
+	parked2 := make(chan struct{})
+	release2 := make(chan struct{})
+	done2 := make(chan interface{}, 1)
+	go func() {
+		defer func() { done2 <- recover() }()
+		lg.With(zap.Reflect("req", jeGateJSON{"D", func() { close(parked2); <-release2 }}), zap.Int("n", 4)).Info("D")
+	}()
+	select {
+	case <-parked2:
+		func() {
+			defer func() {
+				if p := recover(); p != nil {
+					add("panic", "deriving a sibling while a With(reflected) is in progress panicked: %v", p)
+				}
+			}()
+			lg.With(zap.Reflect("req", jeGateJSON{"E", nil}), zap.Int("n", 5)).Info("E")
+		}()
+		close(release2)
+		if p := <-done2; p != nil {
+			add("panic", "the parked derivation panicked: %v", p)
+		}
+	case <-time.After(5 * time.Second):
+		add("harness", "the reflected context field's MarshalJSON was never called")
+	}
+	want["D"] = `{"m":"D","ctx":{"Build":"v1"},"req":{"who":"D"},"n":4}`
+	want["E"] = `{"m":"E","ctx":{"Build":"v1"},"req":{"who":"E"},"n":5}`
+	lines := sink.all()
+	if len(lines) != 5 {
+		add("entry-lost", "5 entries logged, %d lines written: %q", len(lines), lines)
+	}
+	for _, l := range lines {
+		if err := strictJSONObjectLine([]byte(l), ""); err != nil {
+			add("invalid-json", "overlapping reflected fields on a logger with a reflected context: %v: %q", err, l)
+			continue
+		}
+		var m struct{ M string }
+		json.Unmarshal([]byte(l), &m)
+		if w, ok := want[m.M]; !ok || w != l {
+			add("value", "overlapping reflected fields on a logger with a reflected context: entry %q came out as %s, alone it is %s", m.M, l, w)
+		}
+	}
+	return finds
+}
+
+type jeFlakySink struct {
+	fail  map[int]bool
+	n     int
+	lines []string
+}
+
+func (s *jeFlakySink) Write(p []byte) (int, error) {
+	s.n++
+	if s.fail[s.n] {
+		return 0, errors.New("disk full")
+	}
+	s.lines = append(s.lines, string(p))
+	return len(p), nil
+}
+func (s *jeFlakySink) Sync() error { return nil }
+
+// replayAfterSinkError: the sink fails one write; afterwards parent and freshly derived children log in turn
+// (each entry needs two pooled buffers at once). Every later line must be intact and its own.
+func replayAfterSinkError() (finds []jeFinding) {
+	add := func(key, f string, a ...interface{}) {
+		finds = append(finds, jeFinding{"", key, fmt.Sprintf(f, a...)})
+	}
+	for failAt := 1; failAt <= 3; failAt++ {
+		sink := &jeFlakySink{fail: map[int]bool{failAt: true}}
+		var errOut bytes.Buffer
+		lg := zap.New(zapcore.NewCore(zapcore.NewJSONEncoder(zapcore.EncoderConfig{MessageKey: "m", SkipLineEnding: true}), zapcore.Lock(sink), zapcore.DebugLevel), zap.ErrorOutput(zapcore.AddSync(&errOut)))
+		want := []string{}
+		func() {
+			defer func() {
+				if p := recover(); p != nil {
+					add("panic", "logging after a sink write error panicked: %v", p)
+				}
+			}()
+			for i := 1; i <= 8; i++ {
+				child := lg.With(zap.Int("child", i), zap.String("pad", strings.Repeat("c", 50)))
+				child.Info(fmt.Sprintf("c%d", i), zap.Int("i", i))
+				lg.Info(fmt.Sprintf("p%d", i), zap.Int("i", i))
+				if 2*i-1 != failAt {
+					want = append(want, fmt.Sprintf(`{"m":"c%d","child":%d,"pad":"%s","i":%d}`, i, i, strings.Repeat("c", 50), i))
+				}
+				if 2*i != failAt {
+					want = append(want, fmt.Sprintf(`{"m":"p%d","i":%d}`, i, i))
+				}
+			}
+		}()
+		if strings.Join(sink.lines, "\n") != strings.Join(want, "\n") {
+			for k := range sink.lines {
+				if k >= len(want) || sink.lines[k] != want[k] {
+					w := "(nothing)"
+					if k < len(want) {
+						w = want[k]
+					}
+					key := "value"
+					if strictJSONObjectLine([]byte(sink.lines[k]), "") != nil {
+						key = "invalid-json"
+					}
+					add(key, "after write #%d to the sink failed, line %d is %q, want %q", failAt, k+1, trunc(sink.lines[k]), w)
+					break
+				}
+			}
+			if len(sink.lines) < len(want) {
+				add("entry-lost", "after write #%d to the sink failed, %d of %d later entries reached the sink", failAt, len(sink.lines), len(want))
+			}
+		}
+		if !strings.Contains(errOut.String(), "disk full") {
+			add("sink:not-reported", "the failed write was not reported on the error output (%q)", errOut.String())
+		}
+	}
+	return finds
 }
